@@ -243,6 +243,8 @@ def run(ctx):
         np_ = produced.check_produced_size(ck, prog, config, 'C02-g')
         ck.min_instances('hand-overs of a unit-decompressed buffer', np_, 1)
         produced.check_eof_in_chunk(ck, prog, config, 'C02-h')
+        # ---- i  only their owners begin, end or finalise the running digests
+        extra.check_hash_owners(ck, prog, config, 'C02-i')
         # ---- e
         um = [f for f in prog.by_name.get('main', []) if f.unit.endswith('unzck.c')]
         ck.require(len(um) == 1, 'unzck main not found')
